@@ -49,6 +49,9 @@ def gen_cases(rng, n, maxdim, big=False):
             kind = int(rng.integers(0, 8))
             q0 = gen.charges(rng, m, kind); q1 = gen.charges(rng, nn, kind if rng.random() < 0.7 else None)
             A = gen.sparse_matrix(rng, q0, q1, dtype, density=float(rng.choice([0.3, 0.8, 1.0])))
+            if dtype != 'int' and rng.random() < 0.08:
+                # uniformly tiny / huge entries (exact power-of-two scaling): every clause of C11/C12 is scale invariant
+                A = A * 2.0 ** int(rng.choice([-60, -100, 70]))
         yield A, q0, q1
 
 
